@@ -226,7 +226,12 @@ fn sized_call_meth(size: usize, valid: bool, salt: u8) -> Frame {
         malformed(size, salt)
     };
     assert_eq!(s.len(), size);
-    let s: &'static [u8] = Box::leak(s.into_boxed_slice());
+    // (the oracle borrows from the frame: distinct frames are few, each is leaked once per thread -
+    // leaking one per execution took the thorough tier of C07 to 64 GB)
+    thread_local! {
+        static FRAMES: std::cell::RefCell<std::collections::HashMap<Vec<u8>, &'static [u8]>> = std::cell::RefCell::new(std::collections::HashMap::new());
+    }
+    let s: &'static [u8] = FRAMES.with(|m| *m.borrow_mut().entry(s.clone()).or_insert_with(|| Box::leak(s.into_boxed_slice())));
     let expect = oracle_call::<Meth<'_>>(s);
     Frame { bytes: s.to_vec(), expect }
 }
